@@ -9,7 +9,7 @@ from mc import evidence, harness as H, par, peer as P, report, runner, vnet
 PID = 'C18'
 V4, V6 = int(socket.AF_INET), int(socket.AF_INET6)
 HOSTS = [('name', 'host.example'), ('name', 'a-b.c9.example.org'), ('v4', '192.0.2.10'), ('v6', '::1'), ('v6', 'fe80::1'),
-         ('v6', '2001:0db8:0000:0000:0000:0000:0000:0001'), ('v6', '::ffff:192.0.2.1')]
+         ('v6', '2001:0db8:0000:0000:0000:0000:0000:0001'), ('v6', '::ffff:192.0.2.1'), ('v6', '2001:DB8::A'), ('v6', 'FE80::1')]
 PORTS_OK = [1, 22, 2222, 65535]
 PORTS_BAD = [0, 65536, 70000]
 FAMILY_OPTS = {'none': [], '-4': ['-4'], '-6': ['-6'], '-46': ['-46'], '-64': ['-64'], '-6 -4': ['-6', '-4'], '--ipv4 --ipv6': ['--ipv4', '--ipv6']}
